@@ -29,8 +29,15 @@ def run(ctx):
     out = ctx.path("perm_struct.ndjson")
     ctx.run(binary, ["structs", out, str(150 if ctx.quick else 3000)], timeout=3000)
     files.append(out)
+    out = ctx.path("perm_struct_sweep.ndjson")
+    ctx.run(binary, ["sweep-structs", out, "0"], timeout=3000)
+    files.append(out)
     out = ctx.path("perm_cert.ndjson")
-    ctx.run(binary, ["certs", out, str(1500 if ctx.quick else 40000)], timeout=3000)
+    ctx.run(binary, ["certs", out, str(1000 if ctx.quick else 40000)], timeout=3000)
+    files.append(out)
+    # systematic: every node of the seed certificates x every relaxation-type operator
+    out = ctx.path("perm_cert_sweep.ndjson")
+    ctx.run(binary, ["sweep", out, "10" if ctx.quick else "0"], timeout=3000)
     files.append(out)
 
     recs, inputs = [], []
@@ -62,10 +69,13 @@ def run(ctx):
         cands = []
         for i, what, parts in rejected:
             r, s = recs[i - 1], side[i - 1]
-            sig = {"src": r["src"], "target": r["target"], "what": what, "parts": parts}
-            cands.append({"sig": sig, "what": "%s on %s: strict accepts (%d bytes, value %s) but permissive: %s %s" %
-                          (r["target"], r["id"], r["s_n"], r["s_dig"], what, parts),
-                          "case": {"src": r["src"], "id": r["id"], "target": r["target"], "in": s["in"]}})
+            # one candidate per differing part of the value: each part is a different place in the
+            # parser, judged (and matched against known findings) separately
+            for part in (parts.split(",") if parts else [""]):
+                sig = {"src": r["src"], "target": r["target"], "what": what, "part": part}
+                cands.append({"sig": sig, "what": "%s on %s: strict accepts (%d bytes) but permissive: %s %s" %
+                              (r["target"], r["id"], r["s_n"], what, part),
+                              "case": {"src": r["src"], "id": r["id"], "target": r["target"], "in": s["in"], "part": part}})
         ctx.candidates(binary, cands, reproduce=lambda path, body: reproduce(ctx, binary, path))
 
     if ctx.thorough:
@@ -79,7 +89,7 @@ def judge(ctx, recs, label=None):
                  for m in re.finditer(r'<<"REJECT", (\d+), "([^"]*)", \{([^}]*)\}>>', " ".join(r.out.split())))
     counts = {m.group(1): (int(m.group(2)), int(m.group(3)), int(m.group(4)))
               for m in re.finditer(r'<<"COUNTS", "(\w+)", (\d+), (\d+), (\d+)>>', r.out)}
-    if sum(v[0] for v in counts.values()) != len(recs):
+    if label is None and sum(v[0] for v in counts.values()) != len(recs):
         raise Machinery("Trace_Perm counted %s records of %d" % (counts, len(recs)))
     return rej, counts
 
@@ -88,7 +98,8 @@ def reproduce(ctx, binary, path):
     out = ctx.path("one.ndjson")
     ctx.run(binary, ["one", path, out])
     rej, _ = judge(ctx, read_ndjson(out), label="Trace_Perm[replay]")
-    return len(rej) > 0
+    part = json.load(open(path)).get("case", {}).get("part", "")
+    return any(part == "" or part in parts.split(",") for _, _, parts in rej)
 
 
 def selftest(ctx, recs):
